@@ -396,68 +396,74 @@ def main():
     notes = []
     broken = []          # what no longer checks (proof / correspondence / generation)
 
-    # 1. translator
-    gen_ok, gen_msg = C.gen_consts()
-    if not gen_ok:
-        broken.append("generation: " + gen_msg)
-    elif "WARNING" in gen_msg:
-        notes.append(gen_msg)
+    lock = C.build_lock()
+    lock.__enter__()
+    try:
+        # 1. translator
+        gen_ok, gen_msg = C.gen_consts()
+        if not gen_ok:
+            broken.append("generation: " + gen_msg)
+        elif "WARNING" in gen_msg:
+            notes.append(gen_msg)
 
-    # 2. proof
-    proof = {"ok": True, "n_theorems": 0, "n_discharged": 0, "axioms": [], "problems": []}
-    if not args.skip_proof:
-        if gen_ok:
-            proof = C.compile_props(pid, interval_ok=(pid in INTERVAL_PROPS))
-        else:
-            proof = {"ok": False, "n_theorems": 0, "n_discharged": 0, "axioms": [], "problems": ["constants could not be generated"]}
-        if proof["ok"] and tier == "thorough":
-            # independent re-check of the compiled theorems and everything they depend on
-            rc, out = C.run(["coqchk", "-o", "-silent", "-Q", C.COQ, "SU", "SU.Props." + pid], cwd=C.COQ,
-                            timeout=int(os.environ.get("VERIF_COQCHK_TIMEOUT", "1200")))
-            C.log("coqchk_%s.log" % pid, out)
-            bad = []
-            if rc == 124:
-                # coqchk re-checks the vm_compute sweeps with its own (much slower) reduction; running out
-                # of time is recorded, it is not a failed check of the theorems (coqc accepted them)
-                notes.append("coqchk did not finish within its time limit (large computational proofs); "
-                             "the .vo files were accepted by coqc")
-                proof["coqchk_axioms"] = "coqchk timed out"
+        # 2. proof
+        proof = {"ok": True, "n_theorems": 0, "n_discharged": 0, "axioms": [], "problems": []}
+        if not args.skip_proof:
+            if gen_ok:
+                proof = C.compile_props(pid, interval_ok=(pid in INTERVAL_PROPS))
             else:
-                if rc != 0:
-                    bad.append("coqchk exit %d" % rc)
-                for what in ("relying on type-in-type", "relying on unsafe (co)fixpoints", "whose positivity is assumed"):
-                    m = re.search(re.escape(what) + r":\s*(\S+)", out)
-                    if not m or m.group(1) != "<none>":
-                        bad.append("coqchk: %s is not <none>" % what)
-                ax = re.search(r"\* Axioms:(.*?)\n\s*\n\* ", out, re.S)
-                chk_axioms = [l.strip() for l in ax.group(1).split("\n") if l.strip()] if ax else []
-                for a_ in chk_axioms:
-                    tail = ".".join(a_.split(".")[-2:])
-                    if tail in C.ALLOWED_AXIOMS:
-                        continue
-                    if pid in INTERVAL_PROPS and re.search(r"(PrimInt63|PrimFloat|FloatAxioms|Uint63|Sint63|Int63|Floats|Numbers)", a_):
-                        continue
-                    bad.append("coqchk: axiom outside the allow-list: " + a_)
-                proof["coqchk_axioms"] = chk_axioms
-            if bad:
+                proof = {"ok": False, "n_theorems": 0, "n_discharged": 0, "axioms": [], "problems": ["constants could not be generated"]}
+            if proof["ok"] and tier == "thorough":
+                # independent re-check of the compiled theorems and everything they depend on
+                rc, out = C.run(["coqchk", "-o", "-silent", "-Q", C.COQ, "SU", "SU.Props." + pid], cwd=C.COQ,
+                                timeout=int(os.environ.get("VERIF_COQCHK_TIMEOUT", "1200")))
+                C.log("coqchk_%s.log" % pid, out)
+                bad = []
+                if rc == 124:
+                    # coqchk re-checks the vm_compute sweeps with its own (much slower) reduction; running out
+                    # of time is recorded, it is not a failed check of the theorems (coqc accepted them)
+                    notes.append("coqchk did not finish within its time limit (large computational proofs); "
+                                 "the .vo files were accepted by coqc")
+                    proof["coqchk_axioms"] = "coqchk timed out"
+                else:
+                    if rc != 0:
+                        bad.append("coqchk exit %d" % rc)
+                    for what in ("relying on type-in-type", "relying on unsafe (co)fixpoints", "whose positivity is assumed"):
+                        m = re.search(re.escape(what) + r":\s*(\S+)", out)
+                        if not m or m.group(1) != "<none>":
+                            bad.append("coqchk: %s is not <none>" % what)
+                    ax = re.search(r"\* Axioms:(.*?)\n\s*\n\* ", out, re.S)
+                    chk_axioms = [l.strip() for l in ax.group(1).split("\n") if l.strip()] if ax else []
+                    for a_ in chk_axioms:
+                        tail = ".".join(a_.split(".")[-2:])
+                        if tail in C.ALLOWED_AXIOMS:
+                            continue
+                        if pid in INTERVAL_PROPS and re.search(r"(PrimInt63|PrimFloat|FloatAxioms|Uint63|Sint63|Int63|Floats|Numbers)", a_):
+                            continue
+                        bad.append("coqchk: axiom outside the allow-list: " + a_)
+                    proof["coqchk_axioms"] = chk_axioms
+                if bad:
+                    proof["ok"] = False
+                    proof["problems"] += bad
+            forb = C.forbidden_tokens()
+            if forb:
                 proof["ok"] = False
-                proof["problems"] += bad
-        forb = C.forbidden_tokens()
-        if forb:
-            proof["ok"] = False
-            proof["problems"].append("forbidden vernacular: " + "; ".join(forb[:5]))
-        if not proof["ok"]:
-            broken.append("proof: theorems of Props/%s.v no longer check (%s)" % (pid, "; ".join(proof["problems"])))
+                proof["problems"].append("forbidden vernacular: " + "; ".join(forb[:5]))
+            if not proof["ok"]:
+                broken.append("proof: theorems of Props/%s.v no longer check (%s)" % (pid, "; ".join(proof["problems"])))
 
-    # 3. builds
-    ok, out = C.build_harness()
-    if not ok:
-        print(out[-3000:])
-        print("ERROR: the harness does not build against /repo")
-        broken.append("harness build failed: " + out[-400:])
-    drv_ok, out = C.build_driver()
-    if not drv_ok:
-        broken.append("model extraction/driver build failed: " + out[-400:])
+        # 3. builds
+        ok, out = C.build_harness()
+        if not ok:
+            print(out[-3000:])
+            print("ERROR: the harness does not build against /repo")
+            broken.append("harness build failed: " + out[-400:])
+        drv_ok, out = C.build_driver()
+        if not drv_ok:
+            broken.append("model extraction/driver build failed: " + out[-400:])
+
+    finally:
+        lock.__exit__()
 
     # 4./5. scripts, correspondence, monitors
     rng = random.Random(seed * 1000003 + int(pid[1:]))
